@@ -38,7 +38,7 @@ func init() {
 			"(nilnotype) api.Update.UpdateType is read only by StatsCollector: no calc-graph node decides existence from the event type instead of Value==nil. " +
 			"(sync) go statements and channel operations occur only in the AsyncCalcGraph/decoupler shell, so the graph proper is single-threaded and its output cannot depend on goroutine schedule. " +
 			"(filter) in felix/daemon an *AsyncCalcGraph is converted to api.SyncerCallbacks only as the sink argument of calc.NewValidationFilter, and the filter's result is what is handed on. " +
-			"(pendinglive) For every batched set of a calc-graph node other than EventSequencer (a lib/set-typed struct field with Add sites and a loop that empties it: PolicyResolver.pendingPolicyUpdates/dirtyEndpoints, InheritIndex.dirtyItemIDs, ActiveRulesCalculator.missingProfiles, RouteTrie.dirtyCIDRs) and every sibling map/set/multidict M of the same struct into which the queued key is inserted on a path through the Add (in the adding function or its caller): the flush loop (or a callee handed the iteration key) re-reads M at that key, or every function that removes a key from M also Discards it from the batched set (before/after on every path, or under guards that only establish that M no longer contains the key, directly or through a helper that discards its parameter unconditionally). So start-then-stop between two flushes cannot leave a queued action whose premise no longer holds. " +
+			"(pendinglive) For every batched set of a calc-graph node other than EventSequencer (a lib/set-typed struct field with Add sites and a loop that empties it — the Discard of the iteration key / the RemoveItem result / the Clear may sit in a helper the loop body hands the key to or the enclosing function calls: PolicyResolver.pendingPolicyUpdates/dirtyEndpoints, InheritIndex.dirtyItemIDs, ActiveRulesCalculator.missingProfiles, RouteTrie.dirtyCIDRs) and every sibling map/set/multidict M of the same struct into which the queued key is inserted on a path through the Add (in the adding function or its caller): the flush loop (or a callee handed the iteration key) re-reads M at that key, or every function that removes a key from M also Discards it from the batched set (before/after on every path, or under guards that only establish that M no longer contains the key, directly or through a helper that discards its parameter unconditionally). So start-then-stop between two flushes cannot leave a queued action whose premise no longer holds. " +
 			"(twin) Sibling statements / case clauses of felix/calc that are copies of each other up to the IPv4->IPv6 twin relation on identifiers (V4x->V6x, v4->v6, IPv4->IPv6, unmarked x->xV6 inserted anywhere, literal 4->6; block-local names alpha-renamed) use no identifier un-substituted that has a twin resolvable the same way (member of the receiver types, package scope, lexical scope): neither address family's block reads the other family's field, method, variable or type. " +
 			"(twin, missing member) A function of felix/calc that uses both members of one IPv4/IPv6 field pair of a struct (so it handles both families of that struct) uses both members of every twin pair of that struct it touches: a dropped IPv6 (or IPv4) sibling is reported as <fn>/<field>/missing-twin. " +
 			"(eqfields) Every function of felix/calc of the shape func(a, b T) bool over a struct T that is called in felix/calc (vtepEqual, l3rrNodeInfo.Equal, HostInfo.equals, RouteInfo.Equals, policyMetadata.Equals: the tests that suppress re-emission when nothing changed) reads every field of T (exported fields for felix/proto messages) from both operands, or compares the operands whole (==, reflect.DeepEqual, proto.Equal). " +
@@ -1261,22 +1261,11 @@ func c01Batches(c *Ctx, p *Prog, fs []*ssa.Function, calls []CallSite) []*c01Bat
 		// returned from the Iter callback / Clear() in the enclosing function
 		var flush []c01FlushLoop
 		for _, l := range b.Loops {
-			emptied := clears[b.S][l.Top]
-			kr := c01Root(l.Body.Params[0])
-			for _, cs := range callsIn(l.Body, true, func(f *types.Func) bool { return f.Name() == "Discard" }) {
-				if c01FieldCall(cs, "Discard") == b.S && len(cs.Args()) == 2 && c01Root(cs.Args()[1]) == kr {
-					emptied = true
-				}
-			}
-			for _, ret := range returnsOf(l.Body) {
-				for _, rv := range ret.Results {
-					for _, o := range origins(rv, nil) {
-						if g, ok := o.V.(*ssa.Global); ok && g.Name() == "RemoveItem" && g.Pkg != nil && strings.HasSuffix(g.Pkg.Pkg.Path(), "/lib/set") {
-							emptied = true
-						}
-					}
-				}
-			}
+			// (the Discard / the RemoveItem result / the Clear may sit in a helper the
+			// loop body hands the iteration key to, resp. the enclosing function calls)
+			emptied := c01ClearsVia(l.Top, b.S, clears, 0) ||
+				c01DiscardsKey(l.Body, l.Body.Params[0], b.S, 0) ||
+				c01ReturnsRemoveItem(l.Body, 0)
 			if emptied {
 				flush = append(flush, l)
 			}
@@ -1291,6 +1280,73 @@ func c01Batches(c *Ctx, p *Prog, fs []*ssa.Function, calls []CallSite) []*c01Bat
 		return out[i].Owner.Name()+"."+out[i].S.Name() < out[j].Owner.Name()+"."+out[j].S.Name()
 	})
 	return out
+}
+
+// c01DiscardsKey: f (closures included), or — up to three static calls deep — a
+// callee that is handed the key, calls S.Discard(key).
+func c01DiscardsKey(f *ssa.Function, key ssa.Value, s *types.Var, depth int) bool {
+	if f == nil || f.Blocks == nil {
+		return false
+	}
+	kr := c01Root(key)
+	for _, cs := range callsIn(f, true, func(*types.Func) bool { return true }) {
+		if c01FieldCall(cs, "Discard") == s && len(cs.Args()) == 2 && c01Root(cs.Args()[1]) == kr {
+			return true
+		}
+		q := calleeFn(cs.Common())
+		if q == nil || q.Blocks == nil || q == f || depth >= 3 {
+			continue
+		}
+		for i, a := range cs.Common().Args {
+			if i < len(q.Params) && c01Root(a) == kr && c01DiscardsKey(q, q.Params[i], s, depth+1) {
+				return true
+			}
+		}
+	}
+	return false
+}
+
+// c01ReturnsRemoveItem: a result of f originates from lib/set's RemoveItem
+// sentinel, directly or as the result of a callee (up to three calls deep).
+func c01ReturnsRemoveItem(f *ssa.Function, depth int) bool {
+	if f == nil || f.Blocks == nil {
+		return false
+	}
+	for _, ret := range returnsOf(f) {
+		for _, rv := range ret.Results {
+			for _, o := range origins(rv, nil) {
+				if g, ok := o.V.(*ssa.Global); ok && g.Name() == "RemoveItem" && g.Pkg != nil && strings.HasSuffix(g.Pkg.Pkg.Path(), "/lib/set") {
+					return true
+				}
+				if call, ok := o.V.(*ssa.Call); ok && depth < 3 {
+					if q := calleeFn(call.Common()); q != nil && q != f && c01ReturnsRemoveItem(q, depth+1) {
+						return true
+					}
+				}
+			}
+		}
+	}
+	return false
+}
+
+// c01ClearsVia: f, or a function it calls statically (up to two calls deep),
+// calls S.Clear().
+func c01ClearsVia(f *ssa.Function, s *types.Var, clears map[*types.Var]map[*ssa.Function]bool, depth int) bool {
+	if f == nil || f.Blocks == nil {
+		return false
+	}
+	if clears[s][f] {
+		return true
+	}
+	if depth >= 2 || len(clears[s]) == 0 {
+		return false
+	}
+	for _, cs := range callsIn(f, true, func(*types.Func) bool { return true }) {
+		if q := calleeFn(cs.Common()); q != nil && q != f && c01ClearsVia(q, s, clears, depth+1) {
+			return true
+		}
+	}
+	return false
 }
 
 // c01KeyedInserts: instructions of f that put key (root kr) into a container
@@ -1349,7 +1405,7 @@ func c01KeyedReads(f *ssa.Function, key ssa.Value, m *types.Var, depth int) bool
 				return
 			}
 			q := calleeFn(x.Common())
-			if q == nil || q.Blocks == nil || depth >= 2 {
+			if q == nil || q.Blocks == nil || depth >= 3 {
 				return
 			}
 			for i, a := range x.Common().Args {
